@@ -57,7 +57,7 @@ func hasTag(tags []string, id string) bool {
 }
 
 // functions relevant to a property: contracts carrying the tag anywhere
-func functionsFor(db *ContractDB, id string) []string {
+func functionsFor(P *Program, db *ContractDB, id string) []string {
 	var out []string
 	for name, c := range db.funcs {
 		if c.Lemma {
@@ -68,6 +68,11 @@ func functionsFor(db *ContractDB, id string) []string {
 			if hasTag(q.Tags, id) {
 				use = true
 			}
+		}
+		// a pre-condition clause tagged with the property puts an obligation on every caller:
+		// callers are checked under this property as well (otherwise nobody would prove it)
+		if !use && !c.Trusted && P != nil && P.funcs[name] != nil && callsTaggedRequires(P, db, P.funcs[name], id, map[*ssa.Function]bool{}) {
+			use = true
 		}
 		if use && !c.Trusted {
 			out = append(out, name)
@@ -215,7 +220,7 @@ func cmdCheck(args []string) {
 		os.WriteFile(filepath.Join(*verif, "replays", *prop, "contract-error.txt"), []byte(err.Error()+"\n"), 0o644)
 		os.Exit(1)
 	}
-	fns := functionsFor(db, *prop)
+	fns := functionsFor(P, db, *prop)
 	if len(fns) == 0 {
 		fmt.Println("govc: no function carries tag", *prop)
 		os.Exit(2)
@@ -336,6 +341,7 @@ func cmdCheck(args []string) {
 		}
 	}
 	results = append(results, writeOnlyResults(P, db, *prop)...)
+	results = append(results, callOnlyResults(P, db, *prop)...)
 	sort.Slice(results, func(i, j int) bool { return results[i].Fn+results[i].Shape < results[j].Fn+results[j].Shape })
 
 	// known findings
@@ -540,6 +546,11 @@ func cmdCheck(args []string) {
 		for _, wo := range db.writeonly {
 			if hasTag(wo.Tags, *prop) {
 				assumptions = append(assumptions, "A-SAFEGO (writeonly "+wo.Field+"): decided by a scan of every store and escaping field address in the functions of the two own packages, not by a solver; writes through unsafe or reflect are not modelled (neither package imports them); test files are not part of the scan")
+			}
+		}
+		for _, co := range db.callonly {
+			if hasTag(co.Tags, *prop) {
+				assumptions = append(assumptions, "A-SAFEGO (callonly "+co.Text+"): decided by a scan of every call site in the functions of the two own packages, not by a solver; the list of functions is hand-written, calls through function values or reflection are not seen")
 			}
 		}
 		for _, cg := range db.callguards {
@@ -764,6 +775,146 @@ func writeOnlyResults(P *Program, db *ContractDB, prop string) []*FnResult {
 		o.Detail = fmt.Sprintf("scanned %d functions of the own packages, %d stores to the field; offending: %d\n%s", scanned, stores, len(bad), strings.Join(bad, "\n"))
 		if len(bad) > 0 {
 			o.Failed = 1
+		} else {
+			o.By["syntactic-frame-rule"] = 1
+		}
+	}
+	return out
+}
+
+func requiresTagged(c *Contract, id string) bool {
+	if c == nil {
+		return false
+	}
+	for _, q := range c.Requires {
+		if hasTag(q.Tags, id) {
+			return true
+		}
+	}
+	return false
+}
+
+// callsTaggedRequires: fn (or an own function without a contract that it calls, which the engine
+// inlines) calls something whose contract has a `requires[id]` clause.
+func callsTaggedRequires(P *Program, db *ContractDB, fn *ssa.Function, id string, seen map[*ssa.Function]bool) bool {
+	if seen[fn] {
+		return false
+	}
+	seen[fn] = true
+	for _, b := range fn.Blocks {
+		for _, ins := range b.Instrs {
+			var cc *ssa.CallCommon
+			switch x := ins.(type) {
+			case *ssa.Call:
+				cc = &x.Call
+			case *ssa.Defer:
+				cc = &x.Call
+			case *ssa.Go:
+				cc = &x.Call
+			default:
+				continue
+			}
+			if cc.IsInvoke() {
+				key := ifaceKey(cc.Value.Type()) + "." + cc.Method.Name()
+				short := strings.ReplaceAll(strings.ReplaceAll(key, pkgTD, "testdirectory"), pkgGldap, "gldap")
+				if requiresTagged(db.methods[short], id) || requiresTagged(db.externs["iface:"+key], id) {
+					return true
+				}
+				continue
+			}
+			callee := cc.StaticCallee()
+			if callee == nil {
+				if mc, ok := cc.Value.(*ssa.MakeClosure); ok {
+					callee, _ = mc.Fn.(*ssa.Function)
+				}
+			}
+			if callee == nil {
+				continue
+			}
+			if callee.Pkg != nil && ownPkg(callee.Pkg.Pkg) {
+				if c, ok := db.funcs[shortName(callee)]; ok {
+					if requiresTagged(c, id) {
+						return true
+					}
+					continue
+				}
+				if callsTaggedRequires(P, db, callee, id, seen) {
+					return true
+				}
+				continue
+			}
+			if requiresTagged(db.externs[callee.String()], id) {
+				return true
+			}
+		}
+	}
+	return false
+}
+
+// callOnlyResults decides the `callonly` declarations tagged with prop by scanning every call,
+// defer and go instruction of the own packages.
+func callOnlyResults(P *Program, db *ContractDB, prop string) []*FnResult {
+	var out []*FnResult
+	for _, co := range db.callonly {
+		if !hasTag(co.Tags, prop) {
+			continue
+		}
+		res := &FnResult{Fn: "(package frame) callonly " + co.Text, Vacuity: "n/a (syntactic frame rule)"}
+		o := &Oblig{Name: "(package)/FRAME.calls:callonly " + co.Text, Class: "FRAME.calls", Fn: "(package)", Tags: co.Tags, Inst: 1, By: map[string]int{}}
+		res.Obligs = []*Oblig{o}
+		out = append(out, res)
+		for fn := range co.By {
+			if P.funcs[fn] == nil {
+				res.Errors = append(res.Errors, "callonly: no function "+fn)
+			}
+		}
+		names := make([]string, 0, len(P.funcs))
+		for n := range P.funcs {
+			names = append(names, n)
+		}
+		sort.Strings(names)
+		var bad []string
+		scanned, sites := 0, 0
+		for _, n := range names {
+			fn := P.funcs[n]
+			scanned++
+			for _, b := range fn.Blocks {
+				for _, ins := range b.Instrs {
+					var cc *ssa.CallCommon
+					switch x := ins.(type) {
+					case *ssa.Call:
+						cc = &x.Call
+					case *ssa.Defer:
+						cc = &x.Call
+					case *ssa.Go:
+						cc = &x.Call
+					default:
+						continue
+					}
+					name := ""
+					if cc.IsInvoke() {
+						name = "iface:" + ifaceKey(cc.Value.Type()) + "." + cc.Method.Name()
+					} else if callee := cc.StaticCallee(); callee != nil {
+						name = callee.String()
+					}
+					if !co.Names[name] {
+						continue
+					}
+					sites++
+					if !co.By[n] {
+						bad = append(bad, n+": calls "+name+" | "+P.srcLine(ins.Pos()))
+						if o.FirstPos == "" {
+							o.FirstPos = P.fset.Position(ins.Pos()).String()
+						}
+					}
+				}
+			}
+		}
+		o.Detail = fmt.Sprintf("scanned %d functions of the own packages, %d call sites of the listed functions; offending: %d\n%s", scanned, sites, len(bad), strings.Join(bad, "\n"))
+		if len(bad) > 0 {
+			o.Failed = 1
+		} else if sites == 0 {
+			res.Errors = append(res.Errors, "callonly "+co.Text+": no call site found at all (vacuous declaration)")
 		} else {
 			o.By["syntactic-frame-rule"] = 1
 		}
